@@ -43,9 +43,11 @@ PATTERNS = {
     'default': (None, '##### Part %d'),
     'dashes': (r'^(# --- .+ ---)$', '# --- section %d ---'),
     'percent': (r'^(#% .*)$', '#%% cell %d'),
+    'cellnl': (r'^(#@ .*\n)', '#@ cell %d'),        # the separator's group includes its own newline
 }
 STATEMENTS = ['a%d = %d', 'print(%d + %d)', 'b%d = [%d]', "s%d = 'v%d'", 'c%d = a0 if False else %d', 'print("row", %d, %d)',
-              'd%d = {"k": %d}', 'e%d = %d * 2']
+              'd%d = {"k": %d}', 'e%d = %d * 2', "t%d = 'a\x0bb%d'", "u%d = %d  # note\u2028still the same line"]
+FORM_FEED_LINE = '\x0c'       # a page-break line: blank for Python, a line break for str.splitlines()
 
 
 def tasks(base_seed, tier):
@@ -61,17 +63,28 @@ def determinism_sample(tasks_):
 
 
 def gen_chunk(r, idx, n_lines):
+    """-> (lines, name of a function defined in this chunk or None)"""
     lines = []
+    fn = None
     for j in range(n_lines):
-        t = r.choice(STATEMENTS)
-        lines.append(t % (idx * 10 + j, r.randint(0, 9)))
-    return lines
+        c = r.random()
+        if c < 0.06:
+            lines.append(FORM_FEED_LINE)
+        elif c < 0.22 and fn is None:
+            fn = 'g%d' % idx
+            lines += ['def %s(x):' % fn, '    y = x + %d' % r.randint(1, 5), '    z = y * 2', '    return z']
+        else:
+            t = r.choice(STATEMENTS)
+            lines.append(t % (idx * 10 + j, r.randint(0, 9)))
+    return lines, fn
 
 
 def build(seed, tier):
     st = seeds.streams(seed)
     r, ro, rf = st[seeds.PROGRAM], st[seeds.OPS], st[seeds.FAULTS]
-    pname = r.choice(['default', 'default', 'dashes', 'percent'])
+    pname = r.choice(['default', 'default', 'dashes', 'percent', 'cellnl'])
+    nl_in_marker = pname == 'cellnl'
+    funcs = {}
     pattern, marker_t = PATTERNS[pname]
     m = r.choice([0, 1, 2, 2, 3, 3, 4, 6])
     independent = r.random() < 0.6
@@ -84,16 +97,20 @@ def build(seed, tier):
             n_lines = 0                      # marker on the very first line
         if 0 < k < m and r.random() < 0.15:
             n_lines = 0                      # adjacent markers
-        lines = gen_chunk(r, k, n_lines)
+        lines, fn = gen_chunk(r, k, n_lines)
+        if fn:
+            funcs[str(k)] = fn
         if k == 0:
+            text = ''.join(ln + '\n' for ln in lines)
+        elif nl_in_marker:
             text = ''.join(ln + '\n' for ln in lines)
         else:
             text = '\n' + ''.join(ln + '\n' for ln in lines)
-            if k == m and r.random() < 0.25:
+            if k == m and r.random() < 0.25 and (not lines or not lines[-1].startswith(' ')):
                 text = text.rstrip('\n') if lines else ''      # file ends without a newline / marker is the last line
         pieces.append(text)
         if k < m:
-            pieces.append(marker_t % (k + 1))
+            pieces.append(marker_t % (k + 1) + ('\n' if nl_in_marker else ''))
     ops = []
     k = 0
     crashed = False
@@ -107,8 +124,11 @@ def build(seed, tier):
             ops.append({'op': 'verify', 'plant': ro.random() < 0.5, 'at': ro.randint(0, 5)})
         elif c < 0.62:
             ops.append({'op': 'tifa', 'plant': ro.random() < 0.6, 'at': ro.randint(0, 5)})
-        elif c < 0.92:
+        elif c < 0.82:
             ops.append({'op': 'run', 'enumerate': True, 'exc': rf.choice(faults.ORDINARY + ['SystemExit'])})
+        elif c < 0.92:
+            # run the active section, then call a function it defines, crashing inside the function
+            ops.append({'op': 'call', 'exc': rf.choice(faults.ORDINARY)})
         else:
             ops.append({'op': 'crash', 'exc': rf.choice(['ValueError', 'KeyError'])})
             crashed = True
@@ -122,7 +142,7 @@ def build(seed, tier):
         ops.append({'op': 'run', 'enumerate': True, 'exc': rf.choice(faults.ORDINARY), 'after_stop': True})
     elif end < 0.85:
         ops.append({'op': 'resolve'})
-    return {'pieces': pieces, 'pattern': pattern, 'pname': pname, 'independent': independent, 'ops': ops,
+    return {'pieces': pieces, 'pattern': pattern, 'pname': pname, 'independent': independent, 'ops': ops, 'funcs': funcs,
             'meta': {'seed': seed, 'markers': m, 'mode': 'independent' if independent else 'cumulative'}}
 
 
@@ -247,6 +267,27 @@ def execute(spec):
                     fo['fired_line'] = fired[0]['line'] if fired else None
                     fo.pop('main_code', None)
                     o['faulted'].append(fo)
+            elif kind == 'call':
+                from pedal.sandbox.commands import call
+                base = {'op': 'call'}
+                guarded(base, lambda: run())
+                o = base
+                o['faulted'] = []
+                o['fn_defined'] = sorted(n for n in get_sandbox().data if n.startswith('g') and n[1:].isdigit())
+                for fn in o['fn_defined']:
+                    for k in (1, 2, 3):
+                        fo = {'k': k, 'fn': fn}
+                        MONITOR.reset_counts()
+                        nf = len(MONITOR.fired)
+                        MONITOR.arm({'kind': 'sync_student', 'k': k, 'exc': op['exc']})
+                        try:
+                            guarded(fo, lambda: call(fn, 1))
+                        finally:
+                            MONITOR.arm(None)
+                        fired = MONITOR.fired[nf:]
+                        fo['fired_line'] = fired[0]['line'] if fired else None
+                        fo.pop('main_code', None)
+                        o['faulted'].append(fo)
             elif kind == 'crash':
                 # the instructor flow aborts inside a section (an exception in the script), then resolve() runs
                 o['crash'] = op['exc']
@@ -371,6 +412,34 @@ def judge(spec, res):
                 if f['tb_text_lines'] and f['tb_text_lines'][-1] != want_line:
                     viol('runtime-traceback-line', 'exception raised on original line %d; traceback text says line %d' % (
                         want_line, f['tb_text_lines'][-1]), '/section=%s' % where)
+                    return vs
+        if kind == 'call' and in_section:
+            own = spec.get('funcs', {}).get(str(k)) if indep else None
+            for fo in o.get('faulted', []):
+                if fo.get('raised'):
+                    viol('call-raised', 'call() raised %s' % (fo['raised'],), '/as=%s' % fo['raised']['cls'])
+                    return vs
+                if fo['fired_line'] is None:
+                    continue
+                # independent mode: only the function defined by the ACTIVE section has line numbers relative to it;
+                # cumulative mode: every function was compiled from a prefix of the file, so its lines are file lines
+                if indep and k > 0 and fo['fn'] != own:
+                    continue
+                if indep and k == 0 and fo['fn'] != spec.get('funcs', {}).get('0'):
+                    continue
+                rt = [f for f in fo['new_feedback'] if f['category'] == 'runtime']
+                if len(rt) != 1:
+                    continue
+                f = rt[0]
+                want_line = cur_off + fo['fired_line']
+                where = 'prologue' if k == 0 else 'later'
+                if f['line'] != want_line:
+                    viol('call-location-line', 'exception raised in %s on original line %d (section %d, local line %d); feedback.location.line = %r'
+                         % (fo['fn'], want_line, k, fo['fired_line'], f['line']), '/section=%s' % where)
+                    return vs
+                if f['tb_text_lines'] and f['tb_text_lines'][-1] != want_line:
+                    viol('call-traceback-line', 'exception raised in %s on original line %d; traceback text says line %d' % (
+                        fo['fn'], want_line, f['tb_text_lines'][-1]), '/section=%s' % where)
                     return vs
         if kind in ('stop_sections', 'resolve', 'crash'):
             if o['main_code'] != original:
